@@ -40,7 +40,7 @@ from pysmt.exceptions import (SolverReturnedUnknownResultError,
 from pysmt.walkers import DagWalker
 from pysmt.solvers.smtlib import SmtLibBasicSolver, SmtLibIgnoreMixin
 from pysmt.solvers.eager import EagerModel
-from pysmt.decorators import catch_conversion_error
+from pysmt.decorators import clear_pending_pop, catch_conversion_error
 from pysmt.constants import Fraction, is_pysmt_integer
 
 
@@ -141,12 +141,14 @@ class CVC5Solver(SmtLibBasicSolver):
 
         self.converter = CVC5Converter(environment, parent_solver=self)
 
+    @clear_pending_pop
     def reset_assertions(self):
         self.cvc5_solver.resetAssertions()
 
     def declare_variable(self, var):
         raise NotImplementedError
 
+    @clear_pending_pop
     def add_assertion(self, formula: FNode, named: Optional[str]=None):
         self._assert_is_boolean(formula)
         term = self.converter.convert(formula)
@@ -161,6 +163,7 @@ class CVC5Solver(SmtLibBasicSolver):
                 assignment[s] = v
         return EagerModel(assignment=assignment, environment=self.environment)
 
+    @clear_pending_pop
     def solve(self, assumptions: Optional[Iterable[FNode]]=None) -> bool:
         if assumptions is not None:
             cvc5_assumptions = [self.converter.convert(a) for a in assumptions]
@@ -177,6 +180,7 @@ class CVC5Solver(SmtLibBasicSolver):
         else:
             return res.isSat()
 
+    @clear_pending_pop
     def push(self, levels=1):
         if not self.options.incremental:
             # The exceptions from CVC5 are not raised correctly
@@ -188,6 +192,7 @@ class CVC5Solver(SmtLibBasicSolver):
             self.cvc5_solver.push()
         return
 
+    @clear_pending_pop
     def pop(self, levels=1):
         for _ in range(levels):
             self.cvc5_solver.pop()
